@@ -34,7 +34,10 @@ type Spec struct {
 	Title         bool
 	AddProps      string // "", "true", "string", "integer", "number", "boolean", "array", "object", "false"
 	AnyOf         []*Spec
-	ConcreteTitle string // with Title: a concrete title
+	AllOf         []*Spec
+	Twice         []string // keywords stated twice for one property by two allOf branches (filled by MergeAllOf)
+	ReqOnly       []string // a constraint-only branch: `required` naming properties (by label) declared in sibling branches
+	ConcreteTitle string   // with Title: a concrete title
 	// filled by Build
 	Atoms   map[string]*absint.Atom
 	DefName *absint.Atom
@@ -50,6 +53,7 @@ type Prop struct {
 	ExtIdent bool         // goJSONSchema.identifier override with a symbolic identifier
 	ExtAtom  *absint.Atom
 	Concrete string // when set, the property name is this concrete text (the real identifier synthesiser runs)
+	SameAs   string // reuse the name atom of the (earlier) property with this label
 }
 
 func (s *Spec) Has(kw string) bool {
@@ -80,6 +84,11 @@ func (s *Spec) Clone() *Spec {
 	for _, a := range s.AnyOf {
 		c.AnyOf = append(c.AnyOf, a.Clone())
 	}
+	c.AllOf = nil
+	for _, a := range s.AllOf {
+		c.AllOf = append(c.AllOf, a.Clone())
+	}
+	c.ReqOnly = append([]string{}, s.ReqOnly...)
 	return &c
 }
 
@@ -143,6 +152,19 @@ func (s *Spec) String() string {
 		}
 		b.WriteString(")")
 	}
+	if len(s.ReqOnly) > 0 {
+		b.WriteString(" required-only(" + strings.Join(s.ReqOnly, ",") + ")")
+	}
+	if len(s.AllOf) > 0 {
+		b.WriteString(" allOf(")
+		for i, a := range s.AllOf {
+			if i > 0 {
+				b.WriteString(" & ")
+			}
+			b.WriteString(a.String())
+		}
+		b.WriteString(")")
+	}
 	if len(s.AnyOf) > 0 {
 		b.WriteString(" anyOf(")
 		for i, a := range s.AnyOf {
@@ -158,6 +180,7 @@ func (s *Spec) String() string {
 
 // builder accumulates definitions while building.
 type builder struct {
+	names    map[string]*absint.Atom
 	g        *gen.G
 	defKeys  []gen.V
 	defVals  []gen.V
@@ -253,8 +276,16 @@ func (b *builder) build(s *Spec, label string) gen.V {
 		var keys, vals []gen.V
 		var req []absint.Str
 		for _, p := range s.Props {
-			p.Name = g.M.NewAtom("RawStr", "name of property "+p.Label)
-			p.Name.NonEmpty = true
+			if p.SameAs != "" && b.names[p.SameAs] != nil {
+				p.Name = b.names[p.SameAs]
+			} else {
+				p.Name = g.M.NewAtom("RawStr", "name of property "+p.Label)
+				p.Name.NonEmpty = true
+			}
+			if b.names == nil {
+				b.names = map[string]*absint.Atom{}
+			}
+			b.names[p.Label] = p.Name
 			name := absint.HoleStr(p.Name)
 			if p.Concrete != "" {
 				name = absint.Lit(p.Concrete)
@@ -343,6 +374,22 @@ func (b *builder) build(s *Spec, label string) gen.V {
 	case "lookalike":
 		// concrete values of different JSON types that print alike
 		f["Enum"] = g.Anys(gen.Any(gen.TFloat64(), float64(1)), gen.Any(gen.TString(), absint.Lit("1")), gen.Any(gen.TBool(), true), gen.Any(gen.TString(), absint.Lit("true")), absint.Iface{}, gen.Any(gen.TString(), absint.Lit("<nil>")))
+	}
+	if len(s.AllOf) > 0 {
+		var ns []gen.V
+		for i, a := range s.AllOf {
+			ns = append(ns, b.build(a, fmt.Sprintf("%sAll%d", label, i)))
+		}
+		f["AllOf"] = g.Nodes(ns...)
+	}
+	if len(s.ReqOnly) > 0 {
+		var req []absint.Str
+		for _, l := range s.ReqOnly {
+			if a := b.names[l]; a != nil {
+				req = append(req, absint.HoleStr(a))
+			}
+		}
+		f["Required"] = g.Strs(req...)
 	}
 	if len(s.AnyOf) > 0 {
 		var ns []gen.V
